@@ -405,7 +405,7 @@ class Ties:
 def record(res, viols, recipe, ops, label):
     for v in viols:
         res.violations.append(dict(key=v['key'], what='%s: %s' % (label, v['what']),
-                                   case={'recipe': recipe, 'ops': ops[:v['step'] + 1]}))
+                                   case={'recipe': recipe, 'ops': ops[:v['step'] + 1] if v['step'] >= 0 else []}))
 
 
 def exhaustive(ctx, mg, res, deadline, ties):
@@ -429,7 +429,7 @@ def exhaustive(ctx, mg, res, deadline, ties):
             res.count('len1:' + opsig(op1))
             record(res, v, recipe, [op1], label)
             res.distinct.add(json.dumps([label, op1], sort_keys=True))
-            if depth < 2 or t[-1]['exc'] is not None or not t[-1]['consistent'] or time.time() > deadline:
+            if depth < 2 or not t or t[-1]['exc'] is not None or not t[-1]['consistent'] or time.time() > deadline:
                 continue
             ops2 = column_layer_ops(mg, g1, rng, cap2)
             if len(ops2) > budget2:
@@ -468,7 +468,7 @@ def big_recipes(mg, rng):
     out.append(('strip', {'kind': 'rect', 'dx': [8.] * rng.randint(2, 6), 'dy': [8.], 'dz': [2., 2.], 'atmos': rng.choice([0, 1, 2])}))
     f = rng.choice(['g1', 'g2', 'g3', 'g4', 'g5', 'g6', 'g7'])
     out.append((f, {'kind': 'file', 'path': 'tests/mulgrid/%s.dat' % f,
-                    'reduce': [rng.uniform(0, 1), rng.uniform(0, 1), rng.randint(20, 120)]}))
+                    'patch': [rng.uniform(0, 1), rng.uniform(0, 1), rng.randint(20, 120)]}))
     return out
 
 
@@ -478,27 +478,29 @@ def random_sequences(ctx, mg, res, deadline, ties=None):
     done = 0
     while done < nseq and time.time() < deadline:
         for label, recipe in big_recipes(mg, rng) + [(l, r) for l, r in small_recipes() if rng.random() < 0.5]:
-            if recipe['kind'] == 'file' and recipe.get('reduce'):
-                # locate the patch relative to the geometry's bounds
-                gfull = mg.mulgrid(str(core.REPO / recipe['path']))
-                b = gfull.bounds
-                recipe['reduce'] = [float(b[0][0] + recipe['reduce'][0] * (b[1][0] - b[0][0])),
-                                    float(b[0][1] + recipe['reduce'][1] * (b[1][1] - b[0][1])), recipe['reduce'][2]]
             if rng.random() < 0.5 and recipe['kind'] != 'file':
                 recipe = with_surfaces(mg, recipe, rng)
+            patch = recipe.pop('patch', None)
             g = G.build(mg, recipe)
-            if len(g.columnlist) > 300:
+            first = None
+            if patch is not None:
+                b = g.bounds
+                first = G.patch_op(g, float(b[0][0] + patch[0] * (b[1][0] - b[0][0])),
+                                   float(b[0][1] + patch[1] * (b[1][1] - b[0][1])), patch[2])
+            elif len(g.columnlist) > 300:
                 continue
-            ops, v = [], []
+            ops = []
             prev = G.geoinv(g)
-            length = rng.randint(3, 25)
+            v = G.judge_start(prev)
+            length = rng.randint(3, 25) if not any(x['key'] not in KNOWN() for x in v) else 0
             tie = ties.make() if ties is not None and len(g.columnlist) <= 120 else None
             if tie is not None:
                 tie.start(g, prev, {'step': -1})
             for step in range(length):
-                if len(g.columnlist) > 300:
+                if len(g.columnlist) > 300 and first is None:
                     break
-                op = random_op(mg, g, rng, prev)
+                op = first if first is not None else random_op(mg, g, rng, prev)
+                first = None
                 ops.append(op)
                 info = {}
                 cmd = tie.before(step, op, g) if tie is not None else None
